@@ -440,7 +440,7 @@ class C03(Check):
                                 "attr": rng.choice(["required_capabilities", "required_capabilities", "capabilities"]),
                                 # how the tool reaches the registry: a Tool object, a SimpleTool around the same body,
                                 # or register_function (the public convenience API)
-                                "via": rng.choice(["object", "object", "simple", "function"])})
+                                "via": rng.choice(["object", "object", "simple", "function", "protocol", "protocol"])})
                 elif k < 0.55:
                     t = rng.choice(names)
                     expr = rng.choice([f"{t}()", f"{t}(1, 2)", f"{t}(1, k=2)", f"{t.upper()}(3)", f"{t}(1 + 1)", f"ghost(1)",
@@ -504,6 +504,8 @@ class C03(Check):
                 elif via == "function" and op["attr"] == "required_capabilities":
                     m.register_function(t.name, t.execute, "stub", required_capabilities=set(caps_decl))
                 else:
+                    if via == "protocol":
+                        del t.parameters_schema      # a tool that implements only the protocol: name, description, execute
                     m.engulf_tool(t)
                 steps.append({"op": "reg"})
                 continue
